@@ -580,13 +580,10 @@ left below `snd_una - 1` (an RTO rewinds it; an ACK for the old copies must not 
 def clampLastSent (lastSent sndUna : Nat) : Nat :=
   if seqSub lastSent (wsub sndUna 1) < 0 then wsub sndUna 1 else lastSent
 
-/-- The rest of `process_incoming_message` for a packet that passed the table. `previouslySeenRemoteFin`
-is evaluated on the state *before* the table ran. -/
-def processAccepted (v : VSock) (c : Ctx) (msg : Msg) (previouslySeenRemoteFin : Bool) : R (VSock × Ctx × OnAckResult) := do
+/-- First half of `process_incoming_message` for a packet that passed the table: acknowledgement processing
+(`remove_up_to_ack`, the `last_sent_seq_nr` clamp, RTT sample, congestion controller, recovery). -/
+def ackPart (v : VSock) (c : Ctx) (msg : Msg) : R (VSock × Ctx × OnAckResult) := do
   let hdr := msg.h
-  let ty := hdr.htype
-  let isData := ty = TYPE_ST_DATA
-  let isFin := ty = TYPE_ST_FIN
   -- ack processing
   let (segs1, res) ← match v.segs.removeUpToAck v.pollNow hdr.ackNr hdr.sack with
     | none => throw ⟨(.panic "remove_up_to_ack underflow"), v, c⟩
@@ -603,6 +600,15 @@ def processAccepted (v : VSock) (c : Ctx) (msg : Msg) (previouslySeenRemoteFin :
   let (v, c) ← match v.recovery.onAck hdr v.segs v.lastSentSeqNr c.cc v.pollNow v.rtte.roundtripTime with
     | none => throw ⟨(.panic "calc_pipe out of range"), v, c⟩
     | some (rec', segs', cc') => pure ({ v with recovery := rec', segs := segs' }, { c with cc := cc' })
+  return (v, c, res)
+
+/-- Second half of `process_incoming_message`: the payload (ST_DATA), the FIN, forced ACKs. -/
+def payloadPart (v : VSock) (c : Ctx) (msg : Msg) (res : OnAckResult) (previouslySeenRemoteFin : Bool) :
+    R (VSock × Ctx × OnAckResult) := do
+  let hdr := msg.h
+  let ty := hdr.htype
+  let isData := ty = TYPE_ST_DATA
+  let isFin := ty = TYPE_ST_FIN
   let offset := seqSub hdr.seqNr (wadd v.lastConsumedRemoteSeqNr 1)
   if isData then
     if offset < 0 then return (v.forceImmediateAck, c, res)
@@ -645,6 +651,13 @@ def processAccepted (v : VSock) (c : Ctx) (msg : Msg) (previouslySeenRemoteFin :
       return ({ v with rx := rx', tx := tx' }, { c with wakes := c.wakes ++ ws ++ ws2 }, res)
     return (v, c, res)
   else return (v, c, res)
+
+/-- The rest of `process_incoming_message` for a packet that passed the table: acknowledgement processing, then
+the payload. -/
+def processAccepted (v : VSock) (c : Ctx) (msg : Msg) (previouslySeenRemoteFin : Bool) : R (VSock × Ctx × OnAckResult) :=
+  match v.ackPart c msg with
+  | .error e => throw e
+  | .ok (v, c, res) => v.payloadPart c msg res previouslySeenRemoteFin
 
 /-- `process_incoming_message(msg)`; returns the `OnAckResult`. -/
 def processIncomingMessage (v : VSock) (c : Ctx) (msg : Msg) : R (VSock × Ctx × OnAckResult) :=
